@@ -64,7 +64,7 @@ func storesToField(eng *Engine, typ, field string, allowed map[string]bool) (vio
 				}
 				root := fa.X.Type().(*types.Pointer).Elem()
 				if typeName(root) == typ && fieldNameAt(root, []int{fa.Field}) == field {
-					if !allowed[funcKey(f)] {
+					if !allowed[funcKey(f)] && !eng.helperOf(f, allowed, 2) {
 						viol = append(viol, funcKey(f)+" writes "+typ+"."+field)
 					}
 				}
@@ -178,6 +178,115 @@ func init() {
 		}
 		return
 	}
+}
+
+func init() {
+	// C12/C16: the active-stream count is set by Open and decremented by listenEnd only.
+	frameScans["active-streams-writers"] = func(eng *Engine) (viol []string, n int) {
+		allowed := set("stream.(*stream).Open", "stream.(*stream).listenEnd")
+		for _, f := range eng.allRepoFuncs() {
+			for _, b := range f.Blocks {
+				for _, in := range b.Instrs {
+					n++
+					c, ok := in.(*ssa.Call)
+					if !ok || c.Call.IsInvoke() || len(c.Call.Args) == 0 {
+						continue
+					}
+					callee, ok := c.Call.Value.(*ssa.Function)
+					if !ok || callee.Pkg == nil || callee.Pkg.Pkg.Path() != "sync/atomic" {
+						continue
+					}
+					switch callee.Name() {
+					case "Load":
+						continue
+					}
+					fa, ok := c.Call.Args[0].(*ssa.FieldAddr)
+					if !ok {
+						continue
+					}
+					root := fa.X.Type().(*types.Pointer).Elem()
+					if typeName(root) == "stream.stream" && fieldNameAt(root, []int{fa.Field}) == "activeStreams" && !allowed[funcKey(f)] {
+						viol = append(viol, funcKey(f)+" changes activeStreams ("+callee.Name()+")")
+					}
+				}
+			}
+		}
+		return
+	}
+}
+
+// helperOf: f is only ever called (statically, never used as a value) from functions of the allowed
+// set or from helpers of it - an extracted helper of an allowed writer is not a new writer.
+func (eng *Engine) helperOf(f *ssa.Function, allowed map[string]bool, depth int) bool {
+	if depth == 0 {
+		return false
+	}
+	callers := 0
+	for _, g := range eng.allRepoFuncs() {
+		for _, b := range g.Blocks {
+			for _, in := range b.Instrs {
+				for _, op := range in.Operands(nil) {
+					if fn, ok := (*op).(*ssa.Function); ok && fn == f {
+						c, isCall := in.(*ssa.Call)
+						if !isCall || c.Call.Value != f {
+							return false // taken as a value / go / defer: not a plain helper call
+						}
+						if g != f && !allowed[funcKey(g)] && !eng.helperOf(g, allowed, depth-1) {
+							return false
+						}
+						callers++
+					}
+				}
+			}
+		}
+	}
+	return callers > 0
+}
+
+// fieldWriterScan builds a scan from a table "Type.field" -> functions allowed to assign it.
+func fieldWriterScan(table map[string][]string) frameScan {
+	return func(eng *Engine) (viol []string, n int) {
+		var keys []string
+		for k := range table {
+			keys = append(keys, k)
+		}
+		sort.Strings(keys)
+		for _, k := range keys {
+			i := strings.LastIndex(k, ".")
+			v, m := storesToField(eng, k[:i], k[i+1:], set(table[k]...))
+			viol, n = merge(viol, n, v, m)
+		}
+		return
+	}
+}
+
+func init() {
+	// C06/C08: the pieces of a resume position held by an observer change only in their setters
+	frameScans["observer-position-writers"] = fieldWriterScan(map[string][]string{
+		"couchbase.observer.currentSnapshot": {"couchbase.(*observer).SeqNoAdvanced", "couchbase.(*observer).SnapshotMarker"},
+		"couchbase.observer.vbUUID":          {"couchbase.(*observer).SetVbUUID"},
+		"couchbase.observer.catchupSeqNo":    {"couchbase.(*observer).SetCatchup"},
+		"couchbase.observer.isCatchupNeed":   {"couchbase.(*observer).SetCatchup", "couchbase.(*observer).needCatchup"},
+		"couchbase.observer.latestSeqNo":     {"couchbase.NewObserver"},
+	})
+	// C13: the delivery / end switches of an observer are only ever switched off, by Close / CloseEnd
+	frameScans["observer-switch-writers"] = fieldWriterScan(map[string][]string{
+		"couchbase.observer.closed":    {"couchbase.(*observer).Close"},
+		"couchbase.observer.endClosed": {"couchbase.(*observer).CloseEnd"},
+	})
+	// C11/C13: the lifecycle state of the stream changes only in the lifecycle functions
+	frameScans["lifecycle-writers"] = fieldWriterScan(map[string][]string{
+		"stream.stream.balancing":       {"stream.(*stream).Rebalance", "stream.(*stream).rebalance"},
+		"stream.stream.open":            {"stream.(*stream).Open", "stream.(*stream).Close"},
+		"stream.stream.observers":       {"stream.(*stream).Open", "stream.(*stream).Close"},
+		"stream.stream.closeWithCancel": {"stream.(*stream).Close"},
+		"stream.stream.rebalanceTimer":  {"stream.(*stream).Rebalance"},
+	})
+	// C12: the two "session finished" marks are reset by Open and set by wait
+	frameScans["finish-mark-writers"] = fieldWriterScan(map[string][]string{
+		"stream.stream.streamFinishedWithCloseCh":    {"stream.(*stream).Open", "stream.(*stream).wait"},
+		"stream.stream.streamFinishedWithEndEventCh": {"stream.(*stream).Open", "stream.(*stream).wait"},
+	})
 }
 
 // staticCallers reports functions that call (or take the value of) callee outside the allowed set.
